@@ -78,6 +78,7 @@ impl LocalSettingsStream {
 pub struct RemoteSettingsStream {
     stream: Option<StreamUniRemoteH3>,
     settings: watch::Sender<Option<Settings>>,
+    read_log: Vec<u8>,
 }
 
 impl RemoteSettingsStream {
@@ -85,6 +86,7 @@ impl RemoteSettingsStream {
         Self {
             stream: None,
             settings: watch::channel(None).0,
+            read_log: Vec::new(),
         }
     }
 
@@ -130,7 +132,7 @@ impl RemoteSettingsStream {
             return pending().await;
         };
 
-        match stream.read_frame().await {
+        match stream.read_frame_cancel_safe(&mut self.read_log).await {
             Ok(frame) => Ok(frame),
             Err(ProtoReadError::H3(error_code)) => Err(DriverError::Proto(error_code)),
             Err(ProtoReadError::IO(io_error)) => match io_error {
